@@ -626,5 +626,89 @@ def replay_setter(case):
     judge_setter(c, simnet.run(lambda loop: _setter(loop, *c)))
 
 
+# ---------------------------------------------------------------- USER for another account while a transfer runs
+async def _midtransfer(loop, direction, level, other, L, size):
+    """A transfer that is under way completes under the limits it started with (RFC 959: "completed under the old access
+    control parameters"): a USER line for another - or the same - account must not change its pace."""
+    loop.net.fixed_latency = 0.0
+    loop.net.fixed_segment = 1 << 30
+    key = ("write" if direction == "down" else "read") + "_speed_limit" + ("_per_connection" if level == "user_connection" else "")
+    users = [aioftp.User("a", "p", **{key: L}), aioftp.User("b", "q")]
+    server = aioftp.Server(users, path_io_factory=aioftp.MemoryPathIO, block_size=256)
+    await server.start(HOST, PORT)
+    payload = bytes(i % 251 for i in range(size))
+    harness.mem_populate(server, {"/": DIR, "/f": payload})
+    raw = harness.Raw(HOST, PORT, patience=5000)
+    await raw.connect()
+    await raw.cmd("USER a")
+    await raw.cmd("PASS p")
+    await raw.cmd("EPSV")
+    dr, dw = await raw.open_data()
+    await asyncio.sleep(0.05)
+    t0 = loop.time()
+    code, _ = await raw.cmd("RETR /f" if direction == "down" else "STOR /up")
+    if code != "150":
+        raise Violation("C15/midtransfer/harness_transfer_refused", dict(code=code))
+    got = 0
+    if direction == "down":
+        got += len(await dr.read(256))
+    else:
+        dw.write(payload[:256])
+        await asyncio.sleep(0.01)
+    codes = []
+    for _ in range(other[1]):
+        codes.append((await raw.cmd("USER " + other[0]))[0])
+    if direction == "down":
+        data, eof = await harness.read_all(dr, 5000)
+        got += len(data)
+        dw.close()
+    else:
+        for k in range(256, size, 256):
+            dw.write(payload[k:k + 256])
+        dw.close()
+    done, _ = await raw.reply()
+    dur = loop.time() - t0
+    raw.close()
+    await asyncio.wait_for(server.close(), 1000)
+    return dict(duration=dur, done=done, user_replies=codes)
+
+
+def midtransfer_cases(tier):
+    out = []
+    for direction in ("down", "up"):
+        for level in ("user", "user_connection"):
+            for other in (("b", 1), ("a", 1), ("a", 4), ("nobody", 1)):
+                for L, size in ((2000, 8000),) + (((500, 3000),) if tier == "thorough" else ()):
+                    out.append((direction, level, other, L, size))
+    return out
+
+
+def judge_midtransfer(case, out):
+    direction, level, other, L, size = case
+    detail = dict(direction=direction, level=level, user_line_sent_during_transfer=other[0], times=other[1], limit=L, size=size, **out)
+    if out["done"] != "226":
+        raise Violation(f"C15/midtransfer/{direction}/transfer_failed", detail)
+    minimum = (size - 3 * 256 - 600) / L
+    if out["duration"] < minimum - 1e-6:
+        raise Violation(f"C15/midtransfer/{direction}/limit_of_the_running_transfer_dropped_by_USER", dict(detail, minimum=minimum))
+
+
+def part_midtransfer(ctx):
+    for case in midtransfer_cases(ctx.tier)[ctx.shard::ctx.nshards]:
+        out = simnet.run(lambda loop: _midtransfer(loop, *case))
+        ctx.count(case, True, sample=dict(direction=case[0], level=case[1], user_line=case[2][0], times=case[2][1], limit=case[3], size=case[4],
+                                          duration=round(out["duration"], 3)), classes=["midtransfer_" + case[0]])
+        try:
+            judge_midtransfer(case, out)
+        except Violation as v:
+            ctx.fail(v.sig, dict(kind="midtransfer", case=[case[0], case[1], list(case[2]), case[3], case[4]]), v.detail)
+
+
+def replay_midtransfer(case):
+    c = case["case"]
+    c = (c[0], c[1], tuple(c[2]), c[3], c[4])
+    judge_midtransfer(c, simnet.run(lambda loop: _midtransfer(loop, *c)))
+
+
 def plan(tier):
-    return [("api", 8), ("e2e", 6), ("relogin", 2), ("setter", 2)]
+    return [("api", 8), ("e2e", 6), ("relogin", 2), ("setter", 2), ("midtransfer", 2)]
